@@ -1,5 +1,6 @@
-\* (ii) UDP - the UDP side is a real *net.UDPConn (udpBatchWriter, BatchSize = 2 slots): the code flushes
-\* inside the unpack loop whenever BatchSize datagrams are pending, so nothing is refused.  Sequences <= 3.
+\* (ii) UDP - DEVIATION (neighbour of C12/r3m2 and r3m3, not in the code): an absolute read deadline on the UDP socket.
+\* THIS RUN MUST FAIL with "Invariant UNoSpuriousEnd is violated": time passes, the socket reader leaves its loop although
+\* the socket is open and the tunnel alive - later datagrams of the peer never reach the tunnel.
 CONSTANTS
   MaxSend = 1
   EofWithData = TRUE
@@ -13,26 +14,26 @@ CONSTANTS
   DevCloseWriterFallback = FALSE
   Emit = FALSE
   Classes = {1, 2}
-  BatchSize = 2
+  BatchSize = 32
   BatchBuf = 22
   High = 100
-  MaxT = 3
+  MaxT = 1
   MaxU = 1
   TSeqs <- TAll
-  USeqs <- UNone
+  USeqs <- USmall
   Cuts = "all"
   Chunks = {0}
   Paces = {"burst"}
   DevSpin = FALSE
   DevNoUnblock = FALSE
   DevAliasFlush = FALSE
-  SockBatch = TRUE
+  SockBatch = FALSE
   DevNoInnerFlush = FALSE
   SockQueue = FALSE
   DevQueueRefs = FALSE
-  DevSockDeadline = FALSE
+  DevSockDeadline = TRUE
   DevDropOnClose = FALSE
-SPECIFICATION USpec
-INVARIANTS UTypeOK UDatagrams UComplete UCompleteAny UEncoded UFlushed UMutex UBuf UBatchFits UNoSpuriousEnd
-PROPERTIES UDelivMonotone UEventuallyFlushed UTermination
+INIT UInit
+NEXT UNext
+INVARIANTS UTypeOK UDatagrams UComplete UEncoded UFlushed UMutex UBuf UNoSpuriousEnd
 CHECK_DEADLOCK FALSE
